@@ -125,9 +125,10 @@ def history_task(item):
 
 
 UNIV = {'quick': [(c, (0., 1.), 1, 1) for c in CURVES] + [('UnitSquare', (0., 0.3, 1.), 0, 1), ('Circle', (0., 0.125), 0, 1)]
+                 + [('UnitSquare', (0., 0.5, 2.0), 1, 0), ('Circle', (0., 0.5, 2.0), 1, 0)]  # slab ratio 1:3 - pairs with equal lags and equal SUM of the two time lengths but different lengths (1/4 + 1/4 = 3/8 + 1/8) on one operator
                  + [('UnitSquare', (0., 2.0**-9), 0, 2), ('Circle', (0., 2.0**-9), 0, 3), ('UnitSquare', (0., 1 / 32), 0, 0, 'xs:uneq')],  # very short end time: only seam / corner / neighbour couples survive
         'thorough': [(c, (0., 1.), 1, 2) for c in CURVES] + [(c, (0., 1., 2.), 1, 1) for c in CURVES] + [(c, (0., 0.3, 1.), 1, 1) for c in CURVES]
-                    + [(c, (0., 0.125), 0, 2) for c in CURVES]
+                    + [(c, (0., 0.125), 0, 2) for c in CURVES] + [(c, (0., 0.5, 2.0), 1, 1) for c in CURVES]
                     + [('UnitSquare', (0., 2.0**-9), 1, 2), ('Circle', (0., 2.0**-9), 0, 3), ('LShape', (0., 2.0**-9), 0, 2), ('UnitSquare', (0., 2.0**-9, 1.), 0, 2)]}
 
 
